@@ -138,11 +138,6 @@ def run_obligation(o: Obligation, seed=0):
             unknowns.append("recursion limit in substrate")
             return
         except Exception as e:
-            tb = traceback.extract_tb(e.__traceback__)
-            inner = tb[-1].filename if tb else ""
-            if "/symx/" in inner or "/z3/" in inner:
-                unknowns.append(f"substrate error {type(e).__name__}: {e} @ {inner}:{tb[-1].lineno}"[:300])
-                return
             E._fail(f"exception:{type(e).__name__}", "escaped", f"{type(e).__name__}: {e}"[:300], site=harness._site_of(e))
         npaths[0] += 1
         inputs_seen.update(E.inputs)
